@@ -19,6 +19,7 @@ import StepModel.ComplexReset
 import StepModel.ComplexCombo
 import StepModel.ComplexSim
 import StepModel.ComplexTreeKeep
+import StepModel.ComplexExhaust
 /-!
 # C08 — complex instances are accepted exactly when the supertype constraints allow them
 
@@ -575,6 +576,39 @@ example (parts : List Name) (h2 : ∃ a ∈ parts, ∃ b ∈ parts, a ≠ b) (b 
         simp only [Expr.oneofSmall, Expr.oneofSmallL, and_true, List.length_cons, List.length_nil]
         decide)
     50 exOneofAndorTree C08_collectOf_example parts h2 b hs
+
+-- ------------------------------------------------------------------ the retry odometer: runs to its end, skips nothing that counts
+/-- **The odometer runs to its end** (no hypothesis on the state).  `tryNext` answers NOMORE — anything but MATCHALL /
+NEWCHOICE — only when every OrList it could still step (the OrLists reached through the candidates of
+`firstCandidate`/`nextCandidate`, `Exh`) has `choice = LISTEND`, i.e. has itself found no further alternative: the
+backwards scan of `MultList::tryNext` gives up only after each candidate, from the last to the first, has given up, and
+`OrList::tryNext` only after `acceptChoice` went through all later alternatives (or `choiceCount = 1`). -/
+theorem C08_nomore_exhausted (f : Nat) (t : ST) (es : Ents) (r : ST × Ents × MT) (h : tryNext f t es = .ok r)
+    (hna : r.2.2 ≠ .all) (hnn : r.2.2 ≠ .newchoice) : Exh r.1 :=
+  (nomore_exh f).1 t es r h hna hnn
+
+/-- … hence a refusal by the retry loop of `ComplexList::matches` comes from a `tryNext` that left every steppable OrList
+at LISTEND: with `C08_odometer` (every NEWCHOICE/MATCHALL strictly increases the mixed-radix number of the choices) the
+loop walks upwards through the choice vectors and stops refusing only at the end of the range. -/
+theorem C08_refusal_exhausted (combo : Bool) (f : Nat) (head : ST) (es : Ents) (h : retry f combo head es = .ok false) :
+    ∃ (g : Nat) (h0 : ST) (e0 : Ents) (r : ST × Ents × MT), tryNext g h0 e0 = .ok r ∧ r.2.2 ≠ .all ∧ r.2.2 ≠ .newchoice ∧
+      Exh r.1 :=
+  retry_false_exh combo f head es h
+
+/-- **… and no alternative that counts is skipped** (partial: the alternative is a finished alive list with distinct
+leaves none of which is held elsewhere, `PA`; nothing is held below the OrList — the situation after `unmarkAll` of the
+previous choice; excluded: alternatives whose members are already marked by other lists, which `acceptChoice` passes over
+by design).  Scanning from position `i`, `OrList::acceptChoice` stops at some `j ≤ p` whenever the alternative at `p ≥ i`
+counts: it neither reports "no choice" nor jumps past `p`.  Together with the two theorems above: the odometer digit of an
+OrList takes every value that counts, in order, before it reaches LISTEND.  (The global statement — every choice *vector*
+is visited — and with it completeness for repeated leaf names additionally needs `choiceCount` = number of alternatives
+that count, and the positive `tryNext` specification; not done.) -/
+theorem C08_acceptChoice_skips_nothing_partial (N : List Name) (hN : N.Pairwise (· < ·)) (f : Nat) (cs : List ST) (i : Nat)
+    (es : Ents) (r : List ST × Ents × Option Nat) (o : Name → Nat) (p : Nat) (chp : ST)
+    (h : acceptOr f cs i es = .ok r) (hnm : names es = N) (hfr : FrL o cs es) (h0 : holdsL cs = [])
+    (hnd : (lvSL cs).Nodup) (hout : ∀ n ∈ lvSL cs, o n = 0) (htidy : TidyL cs) (hip : i ≤ p) (hp : cs[p]? = some chp)
+    (hpa : PA N chp) : ∃ j, r.2.2 = some j ∧ i ≤ j ∧ j ≤ p :=
+  acceptOr_progress N hN f cs i es r o p chp h hnm hfr h0 hnd hout htidy hip hp hpa
 
 -- ------------------------------------------------------------------ between two requests
 /-- regenerated from multlist.cc / complexlist.cc / complexSupport.h: `ComplexList::matches` ends with `head->reset();
